@@ -141,3 +141,11 @@ def canaries(tier, seed):
     r = run("quick", seed, mutant="timed_window_swap_late", only_validate=True)
     n = [v for v in r.violations if v["signature"].get("node") == "timed_window"]
     return [dict(name="mutant:timed_window_swap_late", detected=bool(n), rejected=len(n))]
+
+
+TRACE_MODULE = "AsyncTimedWindowTrace"
+
+
+def replay(v):
+    import sys as _s
+    return amod.replay_node(_s.modules[__name__], v)
